@@ -1,6 +1,7 @@
 package harness
 
 import (
+	"math/big"
 	"strings"
 
 	"pgregory.net/rapid"
@@ -20,7 +21,7 @@ func malformOrigin(t *rapid.T, o string) Val {
 		host, port = rest[:i], rest[i+1:]
 	}
 	withPort := func(p string) string { return sch + "://" + host + ":" + p }
-	switch uniform(t, "malform", 34) {
+	switch uniform(t, "malform", 38) {
 	case 0:
 		return V(strings.ToUpper(o))
 	case 1:
@@ -92,6 +93,12 @@ func malformOrigin(t *rapid.T, o string) Val {
 		return V(sch + "://" + rest + ".")
 	case 32:
 		return V("*")
+	case 34, 35, 36, 37:
+		// a port that is congruent to the listed one (or to "no port") modulo 2^16, 2^32, 2^63 or 2^64
+		base := new(big.Int)
+		base.SetString(orStr(port, "0"), 10)
+		wrap := new(big.Int).Lsh(big.NewInt(1), uint(pick(t, "wrapbits", []int{16, 32, 63, 64, 64, 65})))
+		return V(withPort(base.Add(base, wrap).String()))
 	default:
 		return V(sch + "://" + strings.ToUpper(host[:1]) + host[1:] + orStr2(port))
 	}
